@@ -221,7 +221,7 @@ def layers(tier):
                      'score': False})
         jobs.append({'gen': {'gen': 'univ', 'K': K + 1, 'Kr': 3, 'order': 'rev'}, 'meas': meas, 'ths': ts[1::3],
                      'pres': pres})
-    for q, padding, rs in ((2, True, False), (3, False, True), (1, False, False)):
+    for q, padding, rs in ((2, True, False), (3, False, True), (1, False, False), (3, True, False)):
         jobs.append({'gen': {'gen': 'struniv', 'alpha': 'ab', 'maxlen': 4 if quick else 5}, 'meas': 'EDIT_DISTANCE',
                      'ths': [0, 1, 2, 3], 'tok': ['qg', q, padding, rs], 'pres': pres})
         for meas in ('JACCARD', 'OVERLAP_COEFFICIENT'):
@@ -229,6 +229,10 @@ def layers(tier):
                          'ths': [0.3, 0.5, 0.75, 1.0], 'tok': ['qg', q, padding, True], 'pres': pres})
     jobs.append({'gen': {'gen': 'struniv', 'alpha': 'a\u00e9', 'maxlen': 4}, 'meas': 'EDIT_DISTANCE', 'ths': [0, 1, 2],
                  'tok': ['qg', 2, True, False], 'pres': pres})      # non-ASCII characters
+    # count-valued measures with thresholds given as floats, with and without a fraction
+    jobs.append({'gen': {'gen': 'univ', 'K': K}, 'meas': 'OVERLAP', 'ths': [1, 1.5, 2.0, 2.5, 3], 'pres': pres})
+    jobs.append({'gen': {'gen': 'struniv', 'alpha': 'ab', 'maxlen': 4}, 'meas': 'EDIT_DISTANCE',
+                 'ths': [0, 0.5, 1.0, 1.9, 2], 'tok': ['qg', 2, True, False], 'pres': pres})
     for meas in MEAS[:4]:           # thresholds one 4-decimal step around attainable scores
         jobs.append({'gen': {'gen': 'univ', 'K': K}, 'meas': meas, 'pres': pres,
                      'ths': [0.1428, 0.1429, 0.3333, 0.3334, 0.6666, 0.6667, 0.7071, 0.7072]})
